@@ -184,6 +184,8 @@ func runWebUI(env *execenv.Env, opts webUIOptions) error {
 
 	err = srv.ListenAndServe()
 	if err != nil && err != http.ErrServerClosed {
+		// the server never ran, the teardown above will not happen: release the repository lock
+		_ = graphqlHandler.Close()
 		return err
 	}
 
